@@ -709,7 +709,10 @@ def classify(m, cfg, key, extra=None):
         return "minimiser-noop-in-large-units"
     if cfg.get("guess") and m.unit >= 100 and "err" in extra and \
             key in ("gradient-not-zero", "interpolation-error") and \
-            extra["err"] <= 2.0 * abs(cfg["guess"]) * guess_growth(m, cfg, extra["size"]):
+            extra["err"] <= (2.0 if key == "gradient-not-zero" else 6.0) * abs(cfg["guess"]) * \
+            guess_growth(m, cfg, extra["size"]):
+        # (interpolation: a start node that keeps the error of the guess while its neighbours
+        # do not is a kink, and the cubic spline overshoots a kink by a few times its height)
         # (the ODE carries the ABSOLUTE error of the guess at the start along the branch;
         # 2: the Newton step over-estimates the distance by the anharmonicity)
         # recorded: in LARGE units scipy's absolute finite-difference step is rounding noise,
